@@ -422,3 +422,24 @@ func EqVariants(r *rand.Rand, defs []SDef) []SDef {
 	}
 	return out
 }
+
+// DeepChains: two isomorphic families of n recursive definitions, each a choice with k
+// branches that all lead to the next level (the last level loops back to the first).
+// Comparing the heads is linear with a memo of visited pairs and exponential without.
+func DeepChains(n, k int, mode string) []SDef {
+	var defs []SDef
+	for _, fam := range []string{"ChA", "ChB"} {
+		for i := 0; i < n; i++ {
+			next := fmt.Sprintf("%s%d", fam, (i+1)%n)
+			b := &SNode{K: KPlus}
+			if i%2 == 1 {
+				b.K = KWith
+			}
+			for j := 0; j < k; j++ {
+				b.Br = append(b.Br, SBranch{L: fmt.Sprintf("l%d", j), T: &SNode{K: KName, Name: next}})
+			}
+			defs = append(defs, SDef{Name: fmt.Sprintf("%s%d", fam, i), Ann: mode, Body: b})
+		}
+	}
+	return defs
+}
